@@ -193,6 +193,91 @@ def wfTimingLine (line : Str) : Bool :=
   | [_, _, _, _, _, _, fu, ffx] => (fu = ['0'] || fu = ['1']) && (ffx = ['0'] || ffx = ['1'])
   | _ => false
 
+/-! ### the file skeleton of the dialect (`dialect_ok` of the harness, formalised)
+
+A v14 mania file as osu! writes it, seen after the line-level `strip`: some lines before the first header; the
+key/value sections `[General]`, optionally `[Editor]`, `[Metadata]`, `[Difficulty]` in this order; `[Events]` with the
+marker `//Background and Video events` directly followed by the quoted background line, later the marker
+`//Storyboard Sound Samples` followed by nothing but `Sample,…` lines; `[TimingPoints]` with timing lines;
+`[HitObjects]` with object lines.  Blank lines may stand anywhere except between the background marker and its line. -/
+
+def hGeneral : Str := "[General]".toList
+def hEditor : Str := "[Editor]".toList
+def hMetadata : Str := "[Metadata]".toList
+def hDifficulty : Str := "[Difficulty]".toList
+def hEvents : Str := "[Events]".toList
+
+/-- the keys of the metadata table -/
+def metaKeys : List Str :=
+  ["AudioFilename", "AudioLeadIn", "PreviewTime", "Countdown", "SampleSet", "StackLeniency", "Mode", "LetterboxInBreaks",
+   "SpecialStyle", "WidescreenStoryboard", "DistanceSpacing", "BeatDivisor", "GridSize", "TimelineZoom", "Title",
+   "TitleUnicode", "Artist", "ArtistUnicode", "Creator", "Version", "Source", "Tags", "BeatmapID", "BeatmapSetID",
+   "HPDrainRate", "CircleSize", "OverallDifficulty", "ApproachRate", "SliderMultiplier", "SliderTickRate"].map String.toList
+
+/-- the text before the first colon (the whole line if there is none) -/
+def keyOf (l : Str) : Str := (split1 ':' l).1
+
+/-- a line that carries no metadata: its key part is no key of the table and none of the two event markers -/
+def Inert (l : Str) : Prop := keyOf l ∉ metaKeys ∧ keyOf l ≠ kBackground ∧ keyOf l ≠ kSamples
+
+/-- a line of a key/value section: no header, no event marker; a comment or a line without colon is no key -/
+def KvOk (l : Str) : Prop :=
+  isHeader l = false ∧ keyOf l ≠ kBackground ∧ keyOf l ≠ kSamples ∧
+  ((isComment l = true ∨ (split1 ':' l).2 = none) → keyOf l ∉ metaKeys)
+
+/-- a line of `[Events]` other than the markers, the background line and the sample events: carries no metadata, is
+no header, is no sample event and no background event for the by-the-book reading either -/
+def EvInert (l : Str) : Prop :=
+  Inert l ∧ isHeader l = false ∧
+  (isComment l = false → denoteSample l = .ok none ∧ ∀ ty a f r, splitOn ',' l = ty :: a :: f :: r → ty ≠ ['0'])
+
+/-- the background event `0,0,"name"tail`: name free of quotes and commas, tail (`,x,y`) free of quotes -/
+def BgOk (bgl name : Str) : Prop :=
+  ∃ tail, bgl = "0,0,\"".toList ++ name ++ '"' :: tail ∧ '"' ∉ name ∧ ',' ∉ name ∧ '"' ∉ tail ∧
+    (tail = [] ∨ tail.head? = some ',')
+
+/-- a sample event of the dialect: exactly `Sample,time,layer,file,volume` -/
+def SampleOk (l : Str) : Prop := ∃ ft fl f fv, splitOn ',' l = ["Sample".toList, ft, fl, f, fv]
+
+/-- the pieces of a dialect file -/
+structure Skeleton where
+  pre : List Str
+  G : List Str
+  hasEditor : Bool
+  E : List Str
+  M : List Str
+  D : List Str
+  A : List Str
+  bgl : Str
+  bgName : Str
+  B : List Str
+  S : List Str
+  T : List Str
+  O : List Str
+
+def Skeleton.events (s : Skeleton) : List Str := s.A ++ kBackground :: s.bgl :: (s.B ++ kSamples :: s.S)
+
+def Skeleton.head (s : Skeleton) : List Str :=
+  s.pre ++ hGeneral :: (s.G ++ ((if s.hasEditor then hEditor :: s.E else []) ++
+    hMetadata :: (s.M ++ hDifficulty :: (s.D ++ hEvents :: s.events))))
+
+/-- the trimmed lines of the file -/
+def Skeleton.lines (s : Skeleton) : List Str := s.head ++ hTiming :: (s.T ++ hObjects :: s.O)
+
+structure Skeleton.WF (s : Skeleton) : Prop where
+  pre : ∀ l ∈ s.pre, Inert l ∧ isHeader l = false
+  G : ∀ l ∈ s.G, KvOk l
+  E : ∀ l ∈ s.E, KvOk l
+  noE : s.hasEditor = false → s.E = []
+  M : ∀ l ∈ s.M, KvOk l
+  D : ∀ l ∈ s.D, KvOk l
+  A : ∀ l ∈ s.A, EvInert l
+  bg : BgOk s.bgl s.bgName
+  B : ∀ l ∈ s.B, EvInert l
+  S : ∀ l ∈ s.S, l = [] ∨ SampleOk l
+  T : ∀ l ∈ s.T, l = [] ∨ (wfTimingLine l = true ∧ isHeader l = false ∧ isComment l = false)
+  O : ∀ l ∈ s.O, l = [] ∨ (wfObjLine l = true ∧ isHeader l = false ∧ isComment l = false)
+
 /-! ### quantisation: what writing does to a chart -/
 
 def qHit (h : Hit) : Hit := { h with offset := (pyTrunc h.offset : Rat) }
